@@ -577,8 +577,12 @@ func (c *checkCtx) mismatch(fam string, cs, r map[string]J) {
 	dir := filepath.Join(root, "replays", c.id)
 	_ = os.MkdirAll(dir, 0o755)
 	path := filepath.Join(dir, fmt.Sprintf("%x.json", h[:6]))
-	b, _ := json.MarshalIndent(map[string]J{"property": c.id, "family": fam, "case": cs, "result": r, "seed": c.seed, "tier": c.tier, "opts": c.lastOpts}, "", " ")
-	_ = os.WriteFile(path, b, 0o644)
+	// (the first 200 violations of a run get a replay file - the report prints the first 12 -, the others are only counted: a
+	// change that breaks a property often breaks it in ten thousand cases)
+	if len(c.violations) < 200 {
+		b, _ := json.MarshalIndent(map[string]J{"property": c.id, "family": fam, "case": cs, "result": r, "seed": c.seed, "tier": c.tier, "opts": c.lastOpts}, "", " ")
+		_ = os.WriteFile(path, b, 0o644)
+	}
 	c.violations = append(c.violations, violation{replay: path, summary: text})
 }
 
